@@ -99,7 +99,7 @@ def finish(meta, keep, d, code):
         dst = os.path.join(VERIF, "seeded", keep)
         os.makedirs(dst, exist_ok=True)
         for f in ("patch.diff", "demo.py", "notes.md"):
-            if os.path.exists(os.path.join(d, f)):
+            if os.path.exists(os.path.join(d, f)) and os.path.abspath(os.path.join(d, f)) != os.path.abspath(os.path.join(dst, f)):
                 shutil.copy(os.path.join(d, f), os.path.join(dst, f))
         with open(os.path.join(dst, "meta.json"), "w") as f:
             json.dump(meta, f, indent=1)
